@@ -72,9 +72,14 @@ class BlockOrdering:
         after_block: Optional[gtirb.ByteBlock],
         insert_blocks: Iterable[gtirb.ByteBlock],
     ):
+        # The blocks are iterated over twice, so they cannot stay an iterator.
+        insert_blocks = tuple(insert_blocks)
+
+        seen = set()
         for block in insert_blocks:
-            if block in self.__order:
+            if block in self.__order or block in seen:
                 raise ValueError(f"{block} is already ordered")
+            seen.add(block)
 
         prev_entry = self.__order[after_block] if after_block else None
         for block in insert_blocks:
